@@ -278,6 +278,33 @@ func factsBlock() {
 	lm := body(fn(ff, "BaseFetcher", "loadMeta"))
 	emitList("loadMetaConds", "pkg/block/fetcher.go loadMeta(): not-found test and version test",
 		[]string{firstIfCond(lm, "IsObjNotFoundErr"), firstIfCond(lm, "m.Version")})
+	emitList("loadMetaBodyCalls", "pkg/block/fetcher.go loadMeta(): how the body of meta.json is read and decoded",
+		callSeq(lm, "io.ReadAll", "json.Unmarshal", "json.NewDecoder", "Decode"))
+	readErr := "unknown"
+	if lm != nil {
+		var prevReadAll bool
+		ast.Inspect(lm, func(n ast.Node) bool {
+			bs, ok := n.(*ast.BlockStmt)
+			if !ok {
+				return true
+			}
+			for _, st := range bs.List {
+				if as, ok := st.(*ast.AssignStmt); ok && strings.Contains(text(as), "io.ReadAll(") {
+					prevReadAll = true
+					continue
+				}
+				if is, ok := st.(*ast.IfStmt); ok && prevReadAll && readErr == "unknown" && len(is.Body.List) > 0 {
+					readErr = text(is.Cond) + " => " + text(is.Body.List[0])
+				}
+				prevReadAll = false
+			}
+			return true
+		})
+	}
+	emitStr("loadMetaReadErrAction", "pkg/block/fetcher.go loadMeta(): what an error of io.ReadAll becomes", readErr)
+	mkf := parse("pkg/block/metadata/markers.go")
+	emitList("readMarkerBodyCalls", "pkg/block/metadata/markers.go ReadMarker(): how the body of a marker is read and decoded",
+		callSeq(body(fn(mkf, "", "ReadMarker")), "io.ReadAll", "json.Unmarshal", "json.NewDecoder", "Decode"))
 	emitList("deletionFilterTolerated", "pkg/block/fetcher.go IgnoreDeletionMarkFilter.Filter: marker read errors that are not failures",
 		allIfConds(body(fn(ff, "IgnoreDeletionMarkFilter", "Filter")), "errors.Cause(err) =="))
 	// ---- C32 (histories): IgnoreDeletionMarkFilter.Filter rebuilds its map from the bucket on every call
